@@ -135,6 +135,17 @@ def cli_resume_flags(ctx, focus, violations, n):
                     violations.append({'property': 'C08', 'kind': 'uuid-mismatch-not-refused', 'lines': o3.count(b'\n'),
                                        'witness': {'spec': spec, 'cli': fl, 'uuid_changed': True}})
                 common.install_ruleset(spec, name)
+                if i == 0:
+                    # identifiers that are not RFC 4122 syntax (a site's own naming): two different strings are two different rulesets
+                    common.install_ruleset(dict(spec, uuid='rockyou-2019-train-01'), name)
+                    common.run_cli('pcfg_guesser.py', ['-r', name, '-s', sess + 'u'], stdin='pipe-open')
+                    common.install_ruleset(dict(spec, uuid='ROCKYOU-2019-train-02'), name)
+                    o5, e5, rc5 = common.run_cli('pcfg_guesser.py', ['-s', sess + 'u', '--load'], stdin='pipe-open')
+                    cli_runs += 2
+                    if o5 != b'':
+                        violations.append({'property': 'C08', 'kind': 'uuid-mismatch-not-refused', 'lines': o5.count(b'\n'), 'uuids': 'site-specific strings',
+                                           'witness': {'spec': spec, 'cli': fl, 'uuid_changed': True}})
+                    common.install_ruleset(spec, name)
             if o1 != o2:
                 violations.append({'property': focus, 'kind': 'resume-cli-differs', 'flags': fl, 'first_run_lines': o1.count(b'\n'),
                                    'resumed_lines': o2.count(b'\n'), 'witness': {'spec': spec, 'cli': fl}})
@@ -516,6 +527,8 @@ def run(ctx, focus):
         from props import C17 as _c17s
         violations += _c17s.every_size_case('C01')
         cases += 1
+        # ... and of a run picked up from its save file, whatever flags are typed beside --load
+        cases += cli_resume_flags(ctx, focus, violations, 1)
         v_lim, r_lim = _c15l.limited_resume_history('C01')
         violations += v_lim
         cases += r_lim
